@@ -99,6 +99,45 @@ def _group(job):
     return out
 
 
+def _table_scan(job):
+    """Dense, cheap search for sub-problems whose tabulated optimum differs from the independent DP:
+    the library's cost tables (internal helpers named in the property's anchors) hold, for all l <= L
+    at once, opt[l] = optimum(l+1 steps) - (l+1)*uf. Candidates only - each is CONFIRMED by running
+    the stream. If the helpers are renamed/removed the scan is skipped (recorded in the evidence)."""
+    s_ram, d_max, c8, L = job
+    uf, ub, wd, rd = [x / 8 for x in c8]
+    from .. import lib
+    try:
+        from checkpoint_schedules.hrevolve_sequences.hrevolve import get_hopt_table
+        from checkpoint_schedules.hrevolve_sequences.revolve import get_opt_0_table
+        from checkpoint_schedules.hrevolve_sequences.disk_revolve import get_opt_inf_table
+        optp, opt = lib.quiet(get_hopt_table, L, (s_ram, d_max), [0, wd], [0, rd], uf, ub)
+        o0 = lib.quiet(get_opt_0_table, L, s_ram, uf, ub)
+        oi = lib.quiet(get_opt_inf_table, L, s_ram, uf, ub, rd, wd, True)
+    except Exception as e:
+        return {"unavailable": "%s: %s" % (type(e).__name__, e), "entries": 0, "cands": []}
+    cands = []
+    entries = 0
+    for m in range(0, d_max + 1):
+        dp = O.HierDP(s_ram, m, *c8)
+        for l in range(1, L + 1):
+            entries += 1
+            try:
+                if round(opt[1][l][m] * 8) != dp.hopt(l + 1) - (l + 1) * c8[0] or opt[1][l][m] * 8 != round(opt[1][l][m] * 8):
+                    cands.append((l + 1, s_ram, m, list(c8), "dp"))
+            except Exception:
+                cands.append((l + 1, s_ram, m, list(c8), "dp"))
+    dp = O.HierDP(s_ram, 0, *c8)
+    for l in range(1, L + 1):
+        entries += 2
+        try:
+            if o0[s_ram][l] * 8 != dp.ropt(l + 1) - (l + 1) * c8[0] or oi[l] * 8 != dp.dopt(l + 1) - (l + 1) * c8[0]:
+                cands.append((l + 1, s_ram, 0, list(c8), "dp"))
+        except Exception:
+            cands.append((l + 1, s_ram, 0, list(c8), "dp"))
+    return {"entries": entries, "cands": cands[:40]}
+
+
 def _gen(job):
     tier, seed, count = job
     from hypothesis import strategies as st
@@ -149,6 +188,18 @@ def run(prop, args):
     grid = [(n, s, d, c8, "dp") for n in range(NS + 1, ND + 1) for s in (1, 2, 3) for d in (0, 1, 2, 3)
             for c8 in ([8, 8, 16, 16], [8, 16, 24, 4], [16, 8, 4, 40], [8, 24, 8, 0], [24, 8, 0, 8], [8, 8, 32, 32])]
     jobs += grid
+    LT = 100 if tier == "quick" else 260
+    scan_c8 = SEARCH_C8 + [[8, 8, 32, 32], [8, 8, 64, 64], [12, 8, 188, 45], [4, 8, 64, 8], [8, 4, 8, 64], [16, 16, 16, 64]]
+    scan = R.pmap(_table_scan, [(sr, 4, c8, LT) for sr in (1, 2, 3) for c8 in scan_c8], chunksize=1)
+    unavailable = [x["unavailable"] for x in scan if "unavailable" in x]
+    cand = []
+    for x in scan:
+        for g in x["cands"]:
+            if g not in cand:
+                cand.append(g)
+    rep.extra["table_scan"] = {"entries": sum(x["entries"] for x in scan), "l_max": LT, "cost_vectors": len(scan_c8),
+                               "candidates_confirmed_by_stream": len(cand), "unavailable": unavailable[:1]}
+    jobs += cand[:200]
     seen = set((g[0], g[1], g[2], tuple(g[3])) for g in jobs)
     jobs += [g for g in _gen((tier, args.seed, 900 if tier == "quick" else 6000)) if (g[0], g[1], g[2], tuple(g[3])) not in seen]
     res = R.pmap(_group, jobs, chunksize=2)
